@@ -113,7 +113,10 @@ def gen(rng, tier, mult=1):
         b = gen_rrq_bytes(rng)
         if i % 3 == 0:
             b = mutate(rng, b)
-        yield port_case(b, style="rrq")
+        pc = port_case(b, style="rrq")
+        if i % 5 == 1:
+            pc["debug_log"] = True      # the server's logger at DEBUG: the verbose branches run as well
+        yield pc
     for size in (510, 511, 512, 513, 514, 1500):
         base = b"\x00\x01" + b"f" * (size - 2 - 7) + b"\0octet\0"
         yield port_case(base, style="big")
